@@ -9,6 +9,10 @@ CHECKS = {
    text="TLA+ spec Reassembly (contract of reassembly: what a reader may observe, which transport error answers which frame) is model-checked exhaustively by TLC on a small lattice; TLC enumerates every stimulus sequence up to a length bound (and simulates longer walks of the spec); each is executed on the real frameSorter / ReceiveStream+StreamFlowController / cryptoStream and every recorded trace is validated by TLC against the spec, all invariants evaluated in every state.",
    note="Trusted: TLC, the Go harness (position-derived content comparison, buffer poisoning via the verif release hook), go1.26 synctest for blocked calls. Bounded: lattices of 4-5 cells (sizes on both sides of the 128-byte copy threshold), sequences of 3-5 stimuli exhaustively, random walks of 14-40 steps; connection-level window not exercised here.",
    technique="TLA+ model checking (TLC) + TLC-enumerated stimuli replayed into the real code + TLC trace validation"),
+ "C07": dict(engine="AckGen", design="5 C07",
+   text="TLA+ spec AckGen (what an ACK may contain, when it must be due, what the duplicate filter may answer) model-checked by TLC; TLC enumerates all arrival/tick/GetAck/forget-below sequences up to a length bound over a 6-number universe per packet-number space; each runs on the real ReceivedPacketHandler and every recorded call result (duplicate answer, queued flag, alarm, ACK ranges, ECN counts) is validated by TLC against the spec; seeded walks go beyond the 64 tracked ranges.",
+   note="Trusted: TLC, harness projection (ackQueued/hasNewAck read in-package). Bounded: 6 packet numbers x 4-5 stimuli exhaustively; random walks over 400 numbers. The connection-level 'frames not processed twice' is covered only through the duplicate filter contract here.",
+   technique="TLA+ model checking (TLC) + TLC-enumerated stimuli replayed into the real code + TLC trace validation"),
 }
 NA = {}
 
